@@ -11,7 +11,7 @@ import os
 import sys
 import tempfile
 
-from ..ch import S, Fail, absorb, run_jobs
+from ..ch import S, Fail, absorb, run_jobs, untraced
 from ..common import run_native
 from ..shapes import BY_NAME
 from ..stubs import FORMAT_STUBS_NOTE, TEXT_STUB_NOTE, TextStub, install_format_stubs
@@ -25,6 +25,8 @@ FUNCTIONS = [
 
 OPS = ["parse_object_dict", "parse_object_ns", "parse_object_cfg_base", "parse_args_ns", "validate", "validate_raw", "dump", "save", "merge_config", "strip_unknown",
        "instantiate", "get_defaults", "format_help"]
+# operations in which the parsed keys have no previous value (nothing is merged with the defaults first)
+NO_PREVIOUS_OPS = ["parse_object_nodefaults", "parse_string_json", "parse_env_json"]
 
 # where a shape can be made invalid: (path in the object, bad value)
 INVALID = {
@@ -140,6 +142,13 @@ def mutation(op, shape):
     with_default_file = shape.endswith("+default_config_file")
     sh = BY_NAME[shape.split("+")[0]]
     parser = sh.build()
+    if shape.endswith("+spec"):
+        # the class-typed argument's declared default is a class spec with init_args (a dict), not a lazy instance
+        from ..shapes import _ap
+
+        parser = _ap()
+        parser.add_argument("--x", type=fixtures.Base, default={"class_path": "vf.fixtures.Sub1", "init_args": {"w": 7, "z": 0.25}})
+        parser.add_argument("--n", type=int, default=0)
     tmpdir = tempfile.mkdtemp(prefix="c08_")
     if with_default_file:
         # a default config file that overrides options whose declared default is None / not None
@@ -154,10 +163,15 @@ def mutation(op, shape):
         """The defaults as declared on the actions (what get_default reports once no default config file applies)."""
         from jsonargparse._actions import filter_default_actions
 
-        return {a.dest: snap(a.default) for a in filter_default_actions(parser._actions) if isinstance(a.default, (int, float, bool, str, list, dict, tuple, set, type(None)))}
+        return {a.dest: snap(a.default) for a in filter_default_actions(parser._actions) if isinstance(a.default, (int, float, bool, str, list, dict, tuple, set, type(None), Namespace))}
 
     def harness():
-        obj = sh.sym()
+        if op in ("parse_string_json", "parse_env_json"):
+            S.window = [0, 7]
+        try:
+            obj = sh.sym()
+        finally:
+            S.window = None
         invalid = S.flag("invalid") if shape.split("+")[0] in INVALID else False
         bad_path, bad_val = INVALID.get(shape.split("+")[0], ((), None))
         defaults_before = snap(parser.get_defaults())
@@ -166,7 +180,17 @@ def mutation(op, shape):
         args = {}
         raised = None
         # ---- prepare the call's arguments
-        if op in ("parse_object_dict", "parse_object_ns", "parse_object_cfg_base", "parse_args_ns", "validate_raw"):
+        if op in NO_PREVIOUS_OPS:
+            if op == "parse_object_nodefaults":
+                args = dict(cfg_obj=obj)
+                call = lambda: parser.parse_object(obj, defaults=False)
+            else:
+                # text channels: concrete leaves (window) keep the document concrete
+                doc = json.dumps(obj)
+                env = {"APP_" + k.upper(): (json.dumps(v) if not isinstance(v, str) else v) for k, v in obj.items()}
+                args = dict(env=env)
+                call = (lambda: parser.parse_string(doc)) if op == "parse_string_json" else (lambda: parser.parse_env(env))
+        elif op in ("parse_object_dict", "parse_object_ns", "parse_object_cfg_base", "parse_args_ns", "validate_raw"):
             if invalid:
                 _set_path(obj, bad_path, bad_val)
             if op == "parse_object_dict":
@@ -243,7 +267,11 @@ def mutation(op, shape):
         before = {k: snap(v) for k, v in args.items()}
         del fixtures.LOG[:]
         try:
-            result = call()
+            if op in ("parse_string_json", "parse_env_json"):
+                with untraced():  # every input of the text operations is concrete
+                    result = call()
+            else:
+                result = call()
         except (ArgumentError, TypeError, KeyError, ValueError) as ex:
             raised = ex
             result = None
@@ -318,6 +346,8 @@ def plan(tier):
             jobs.append((op, "class_list_small"))
     for op in ("format_help", "get_defaults", "parse_object_dict", "dump", "parse_args_ns"):
         jobs.append((op, "opt_small+default_config_file"))
+    for op in NO_PREVIOUS_OPS + ["parse_object_dict", "validate", "instantiate"]:
+        jobs.append((op, "subclass_default+spec"))
     for shape in shapes:
         for op in OPS:
             if op == "instantiate" and shape not in CLASS_SHAPES:
